@@ -286,16 +286,24 @@ def check_samplers(ctx):
 
 def check_setup(ctx):
     f = ctx.fn('simulator:py_simulate_model')
-    qs = [n for n in ast.walk(f) if isinstance(n, ast.Assign) and src(n.targets[0]) == 'q']
-    ok = len(qs) == 1 and src(qs[0].value).replace(' ', '') in (
-        'ArrayDelayQueue.setup_queue(Interface.py_get_num_reactions(),len(timepoints),timepoints[1]-timepoints[0])',
-        'ArrayDelayQueue.setup_queue(Interface.py_get_num_reactions(),len(timepoints),dt)')
+    # the queue the delay simulators are given: the local (whatever its name) assigned from ArrayDelayQueue.setup_queue(...), its three
+    # arguments read through single-definition temporaries
+    fd_ = {n_: v_ for n_, v_ in util.single_defs(f).items() if v_ is not None}
+    qs = [n for n in ast.walk(f) if isinstance(n, ast.Assign) and isinstance(n.value, ast.Call) and src(n.value.func).replace(' ', '') == 'ArrayDelayQueue.setup_queue']
+    ok = False
+    if len(qs) == 1 and len(qs[0].value.args) == 3 and not qs[0].value.keywords:
+        a_ = [src(util.inline(x_, {n_: v_ for n_, v_ in fd_.items() if n_ != 'dt'})).replace(' ', '') for x_ in qs[0].value.args]
+        ok = a_[0] == 'Interface.py_get_num_reactions()' and a_[1] in ('len(timepoints)', 'timepoints.shape[0]') and \
+            a_[2] in ('timepoints[1]-timepoints[0]', 'dt')
     ctx.ob('R10.5-queue-setup', 'py_simulate_model', ok, ctx.loc('simulator', qs[0]) if qs else ctx.loc('simulator', f),
            'the queue has one row per reaction, one slot per time point and the grid step', '; '.join(src(q.value) for q in qs))
     f = ctx.fn('simulator:ArrayDelayQueue.setup_queue')
     rets = [s for s in f.body if isinstance(s, ast.Return)]
     a = [x.arg for x in f.args.args]
-    ok = len(rets) == 1 and src(rets[0].value).replace(' ', '') == 'ArrayDelayQueue(np.zeros((%s,%s)),%s,0.0)' % (a[0], a[1], a[2])
+    sd_ = {n_: v_ for n_, v_ in util.single_defs(f).items() if v_ is not None}
+    ok = len(rets) == 1 and src(util.inline(rets[0].value, sd_)).replace(' ', '') in (
+        'ArrayDelayQueue(np.zeros((%s,%s)),%s,0.0)' % (a[0], a[1], a[2]), 'ArrayDelayQueue(np.zeros((%s,%s)),%s,0)' % (a[0], a[1], a[2]))
+    ok = ok and not any(isinstance(n_, ast.Global) for n_ in ast.walk(f))
     ctx.ob('R10.5-queue-setup', 'setup_queue', ok, ctx.loc('simulator', f), 'setup_queue builds an empty (reactions x slots) queue with step dt', '')
     sl = simloop.SimLoop(ctx, 'DelaySSASimulator')
     # q.set_current_time(<the interface's initial time>) at the top level of the set-up code (the value may go through a local)
